@@ -9,7 +9,7 @@ from vp import core, gen, volt, ref_guppi
 
 PROP_ID = 'C07'
 LEVEL = 'exploration'
-BUDGET = {'quick': 4000, 'thorough': 60000}
+BUDGET = {'quick': 10000, 'thorough': 60000}
 RULE = ('Hypothesis draws a backend configuration (sample rate, 8..64 branches, start_chan/num_chans, 1-2 pols, 8/4 bit, '
         'both orientations, digitiser on/off, low seeded noise) and one tone at fch1 +- (c+beta)*|chan_bw| in any recorded '
         'coarse channel except the one straddling DC, beta in (-0.45,0.45) at least one fine bin from the centre, on and off '
@@ -25,7 +25,7 @@ RULE = ('Hypothesis draws a backend configuration (sample rate, 8..64 branches, 
 ASSUMPTIONS = ['fine bin k of coarse channel c (after fftshift) is at OBSFREQ + (c-(nchan-1)/2)*CHAN_BW + (k-L/2)*CHAN_BW/L',
                'PFB spectrum n is centred num_taps/2 windows after its first sample', 'tone in the DC-straddling channel and exact channel centres excluded (property)']
 REQUIRED_CLASSES = ['asc', 'desc', 'start_chan=0', 'start_chan>0', 'pols=1', 'pols=2', 'chirp', 'L!=n', 'quicklook',
-                    'quicklook_unpadded', 'quicklook_aligned', 'quicklook_padded', 'array', 'quantity_arguments', 'record_after_aborted_record', 'path_used_earlier']
+                    'quicklook_unpadded', 'quicklook_aligned', 'quicklook_padded', 'array', 'quantity_arguments', 'record_after_aborted_record', 'path_used_earlier', 'quicklook_positional']
 
 
 @st.composite
@@ -60,6 +60,7 @@ def strategy_(draw, tier):
         t['bins_per_spectrum'] = draw(st.sampled_from([1, -1])) * draw(gen.finite(0.3, 1.5))
     return dict(c=c, L=L, n_int=draw(st.integers(1, 4)), units=draw(st.sampled_from([None, None, 'GHz', 'MHz', 'kHz'])),
                 abort_first=abort_first, earlier_use=draw(st.sampled_from([False, False, True])),
+                call_style=draw(st.sampled_from(['kw', 'positional'])),
                 directio=draw(st.sampled_from(['absent', 0, 1, 1])), target_mod=draw(st.sampled_from([None, 0, 5])))
 
 
@@ -270,7 +271,10 @@ def run_case(case, ctx):
     x0 = v[:obsnchan, :sz['spb'] * 1, 0].T          # block 0, (time, chans)
     y0 = v[:obsnchan, :sz['spb'] * 1, 1].T if npol_h == 2 else None
     if sz['spb'] >= L * n_int:
-        ok, got = core.call(obs, 'get_pfb_waterfall', WF.get_pfb_waterfall, x0, y0, L, n_int)
+        if case.get('call_style', 'kw') == 'positional':
+            ok, got = core.call(obs, 'get_pfb_waterfall', WF.get_pfb_waterfall, x0, y0, L, n_int)
+        else:
+            ok, got = core.call(obs, 'get_pfb_waterfall', WF.get_pfb_waterfall, pfb_voltages_x=x0, pfb_voltages_y=y0, fftlength=L, int_factor=n_int)
         if ok:
             want = reduce_ref(x0, y0, L, n_int)
             got = np.asarray(got)
@@ -282,8 +286,14 @@ def run_case(case, ctx):
             obs.cls('quicklook')
             hdr_len = blocks[0]['hdr_len']
             obs.cls('quicklook_aligned' if hdr_len % 512 == 0 else ('quicklook_padded' if dio else 'quicklook_unpadded'))
-            ok, got = core.call(obs, 'get_waterfall_from_raw', WF.get_waterfall_from_raw, volt.raw_files(stem)[0],
-                                sz['block_size'], nch, int_factor=n_int, fftlength=L)
+            if case.get('call_style', 'kw') == 'positional':
+                # the established positional order of the signature: (file, block_size, num_chans, int_factor, fftlength)
+                obs.cls('quicklook_positional')
+                ok, got = core.call(obs, 'get_waterfall_from_raw', WF.get_waterfall_from_raw, volt.raw_files(stem)[0],
+                                    sz['block_size'], nch, n_int, L)
+            else:
+                ok, got = core.call(obs, 'get_waterfall_from_raw', WF.get_waterfall_from_raw, volt.raw_files(stem)[0],
+                                    sz['block_size'], nch, int_factor=n_int, fftlength=L)
             if ok:
                 want = reduce_ref(x0, y0, L, n_int)
                 got = np.asarray(got)
